@@ -966,6 +966,7 @@ def generate(repo_include, tag, workdir):
         f.append(f'  size := fun t => {pref}.size t')
         f.append(f'  capacity := fun t => {pref}.capacity t')
         f.append(f'  begin := fun t => {pref}.begin t')
+        f.append(f'  isSmall := fun t => {pref}.isSmall t' if pref == 'SVB' else f'  isSmall := fun _ => {"true" if static else "false"}')
         f.append(f'  incrSize := fun t => {pref}.incrSize t')
         f.append(f'  decrSize := fun t => {pref}.decrSize t')
         f.append(f'  setSize := fun t s => {pref}.setSize t s')
